@@ -5,7 +5,7 @@
    top-level values of the extracted file share a name (definitions in different Coq
    files must have distinct names). *)
 From Coq Require Import Extraction ExtrOcamlBasic NArith ZArith QArith Qreduction List.
-From JLS Require Import Generated CrcDefs Spec StatsQ MrbModel.
+From JLS Require Import Generated CrcDefs Spec StatsQ MrbModel TmapModel.
 Extraction Language OCaml.
 Extraction "jlsmodel_ext"
   BinInt.Z.add BinInt.Z.opp BinInt.Z.of_N BinInt.Z.to_N BinNat.N.add BinNat.N.mul BinNat.N.of_nat BinNat.N.to_nat
@@ -15,4 +15,9 @@ Extraction "jlsmodel_ext"
   Qreduction.Qred
   StatsQ.stats_reset StatsQ.stats_compute_f64 StatsQ.stats_compute_f32 StatsQ.stats_add StatsQ.stats_add_list
   StatsQ.stats_var StatsQ.stats_copy_store StatsQ.stats_combine_store StatsQ.stats_combine StatsQ.stats_of
-  MrbModel.init MrbModel.alloc MrbModel.alloc_fixed MrbModel.fill_fast MrbModel.peek MrbModel.pop MrbModel.read_msg MrbModel.extents.
+  MrbModel.init MrbModel.alloc MrbModel.alloc_fixed MrbModel.fill_fast MrbModel.peek MrbModel.pop MrbModel.read_msg MrbModel.extents
+  TmapModel.tmap_alloc TmapModel.tmap_add TmapModel.tmap_rate TmapModel.tmap_unchecked
+  TmapModel.tmap_sample_id_to_timestamp TmapModel.tmap_timestamp_to_sample_id
+  TmapModel.tmap_sample_id_to_timestamp_old TmapModel.tmap_timestamp_to_sample_id_old
+  TmapModel.TMAP_ERROR_UNAVAILABLE TmapModel.TMAP_TIME_SECOND TmapModel.TMAP_CELL_BYTES
+  Generated.JLS_ERROR_PARAMETER_INVALID Generated.SIZEOF_utc_summary_entry.
